@@ -11,6 +11,7 @@ import (
 	"io"
 	"os"
 	"strings"
+	"time"
 
 	"github.com/mutagen-io/mutagen/pkg/multiplexing/ring"
 
@@ -238,8 +239,15 @@ func main() {
 	w := hx.NewWriter(cfg, header, "rcase", "ring_failures", 500)
 	w.Rule = "a case = (capacity, operation sequence, implementation results); distinct = distinct Coq terms; non-trivial = more bytes were stored over the sequence than the capacity (the storage wrapped around) or a peer short-read/short-wrote"
 	add := func(c Case, origin string) {
-		coq, nt, tags := runCase(c)
-		w.Add(hx.Case{Coq: coq, Replay: c, Nontrivial: nt, Tags: tags, Origin: origin})
+		if w.Aborted {
+			return
+		}
+		var coq string
+		var nt bool
+		var tags []string
+		if w.Guard(c, 5*time.Second, func() { coq, nt, tags = runCase(c) }) {
+			w.Add(hx.Case{Coq: coq, Replay: c, Nontrivial: nt, Tags: tags, Origin: origin})
+		}
 	}
 
 	if cfg.Replay != "" {
